@@ -215,6 +215,9 @@ func gen(r *hv.Rng, i int, tier string) (string, hv.Val) {
 		if meth == 1 || noBody(status) {
 			// no body on the backend connection: nothing can be cut short
 			errf = 0
+			if framing == 1 && meth != 1 {
+				framing = 2 // a body-less status announced as chunked makes the transport wait for chunks: not generated
+			}
 			if framing == 0 {
 				declared = total
 			}
